@@ -1,6 +1,7 @@
 (* C09 — Decay chains are the faithful recursive unfolding of the decay tables. *)
 From Coq Require Import String List Bool ZArith QArith Arith Lia.
-From DL Require Import Lib.Val Lib.PyDict Decay.ChainDict Dec.Tables Dec.ChainsProofs.
+From DL Require Import Lib.Val Lib.PyDict Decay.ChainDict Dec.Tables Dec.ChainsProofs Dec.Syntax Dec.Post
+  Dec.Layout Dec.ItemParser Dec.FrontEnd Dec.LayoutProofs Dec.ItemParserProofs Dec.FrontEndProofs Dec.Whole Dec.Pipeline Gen.GenLayout.
 Import ListNotations.
 Close Scope Q_scope.
 Open Scope string_scope.
@@ -57,3 +58,21 @@ Proof.
   destruct (String.eqb m "pi0") eqn:E3; [|discriminate].
   inversion Hf; subst. destruct Hl.
 Qed.
+
+(* from the TEXT: s is any spelling of any layout of the statement list f, T the tables parse() makes of f (acyclic).  Then
+   read_dec (Dec/Pipeline.v: front end, then parse()) returns f and T, and the chain built for any mother with a table is
+   the unfolding of T — what build_decay_chains returns is determined by the text's content alone. *)
+Theorem C09_text_level : forall ccdb sc f its s T S rank m,
+  file_items (lc_kind gen_cfg) (lc_alts gen_cfg) f its -> spell (lc_label gen_cfg) (lc_ws gen_cfg) its s ->
+  parse_post ccdb sc true f = inl T -> acyclic T S rank -> find_table m T <> None ->
+  read_dec ccdb sc s = Some (f, T) /\
+  exists c, text_chain ccdb sc (rank m + 2) s S m = vbuild (Some (Some c)) /\ unfolds T S m c /\
+            forall c', unfolds T S m c' -> c' = c.
+Proof.
+  intros ccdb sc f its s T S rank m F Sp HT Hac Hf.
+  assert (Er : read_dec ccdb sc s = Some (f, T)).
+  { unfold read_dec. rewrite (parse_text_layout gen_cfg f its s whole_photos_plain F Sp), HT. reflexivity. }
+  split; [exact Er|]. destruct (C09_chain_is_unfolding T S rank m Hac Hf) as (c & Eb & Hu & Huniq).
+  exists c. split; [unfold text_chain; rewrite Er, Eb; reflexivity|]. split; [exact Hu | exact Huniq].
+Qed.
+Print Assumptions C09_text_level.
